@@ -208,10 +208,18 @@ func refVerify(keys []kd, o vo, tok, sv, hp, pp string) string {
 	return "ok"
 }
 
-func outcome(obs string) string {
-	if i := strings.Index(obs, "priv="); i == 0 {
-		obs = obs[strings.Index(obs, ";")+1:]
+// jResult strips the "priv=... jwk=... " prefix of a J observation.
+func jResult(obs string) string {
+	if strings.HasPrefix(obs, "priv=") {
+		if p := strings.SplitN(obs, " ", 3); len(p) == 3 {
+			return p[2]
+		}
 	}
+	return obs
+}
+
+func outcome(obs string) string {
+	obs = jResult(obs)
 	if strings.HasPrefix(obs, "ok ") {
 		return "ok"
 	}
@@ -320,16 +328,34 @@ func check(in, obs string) string {
 		}
 		// J: JWK export refuses the private keyset, and whatever the public
 		// keyset accepts is accepted with the same claims after export + import
-		if !strings.HasPrefix(obs, "priv=refused;") {
+		if !strings.HasPrefix(obs, "priv=refused ") {
 			return "JWK export did not refuse the private keyset: " + obs[:20]
+		}
+		// the JWK set has one entry per ENABLED key, in order, naming its
+		// algorithm and its kid (key-ID-derived or custom; none otherwise)
+		var want []string
+		for _, d := range keys {
+			if !d.Enabled {
+				continue
+			}
+			kid := "~"
+			if d.Kid == 'T' {
+				kid = hx.H([]byte(tinkKid(d.ID)))
+			} else if d.Kid == 'C' {
+				kid = hx.H([]byte(d.CustomKid))
+			}
+			want = append(want, d.Alg+"."+kid)
+		}
+		if got := strings.SplitN(obs, " ", 3)[1]; got != "jwk="+strings.Join(want, ",") {
+			return "exported JWK set is " + got + ", want jwk=" + strings.Join(want, ",")
 		}
 		vf, _, err := verifierOf("S", keys, false)
 		if err != nil {
 			return "SETUP-FAIL " + err.Error()
 		}
 		direct := verifyObs(vf, o, tok)
-		if outcome(direct) == "ok" && strings.TrimPrefix(obs, "priv=refused;") != direct {
-			return "public keyset gives " + direct[:2] + " but after JWK export/import: " + strings.TrimPrefix(obs, "priv=refused;")
+		if outcome(direct) == "ok" && jResult(obs) != direct {
+			return "public keyset gives " + direct[:2] + " but after JWK export/import: " + jResult(obs)
 		}
 		return ""
 	case "E":
